@@ -179,6 +179,10 @@ pub fn gen_duration(r: &mut Rng, kind: Kind) -> Duration {
 }
 
 pub fn gen_len(r: &mut Rng, allow_empty: bool) -> usize {
+    // rarely a list longer than any 8- or 16-bit counter could hold
+    if r.chance(1, 400) {
+        return *r.pick(&[257usize, 65535, 65536, 65537, 70000]);
+    }
     loop {
         let n = match r.below(12) {
             0 => 0,
@@ -296,7 +300,13 @@ pub fn gen_decos(r: &mut Rng, mask: u8, allow_dirty: bool, finite_only: bool) ->
             0 | 1 => 1,
             2 | 3 => 2,
             4 => 3,
-            _ => r.range(4, 6) as usize,
+            _ => {
+                if r.chance(1, 60) {
+                    *r.pick(&[255usize, 256, 257, 300])
+                } else {
+                    r.range(4, 6) as usize
+                }
+            }
         };
         for _ in 0..n {
             match gen_tag(r, allow_dirty) {
